@@ -29,13 +29,27 @@ The dense meaning of a container is `entry i j` (sum of the stored values at `(i
   subtraction where the C++ relies on the preceding guard); the `Index(-1)` sentinel of `start_offset`/`end_offset` is an
   `Option`.  The block sizes `BlockHeight_/BlockWidth_` (`int` template parameters, `Tiny` loops over `int`) are `Nat`.
 * The scalars are exact rationals (`Q` in the harness); floating point enters only through `FlModel` (tier B) and the
-  `f64-`/`f32-nan-prefill` streams.
+  `f64-nan-prefill` and `f32-nan-prefill` streams.
 * There is no narrow integer type, fixed scratch buffer, unrolling remainder, tiling factor or size threshold in the
   `Apply` kernels and the `apply` members (the only size-dependent path, `FEAT_UNROLL_BANDED` for 3/5/9/25 bands, is compiled
   out), so the theorems do not see any boundary below `2^32`; `C01.index32_*` state the `2^32` conditions.  What ties the
   unbounded model to the bounded C++ types below that is the correspondence run, in particular the stream
   `boundary-sizes` (dimensions, index values and counts at 127/128/129, 255/256/257, 1000/1001, thorough also
   32767/32768 and 65535/65536/65537, 32-bit `IT_`, entries / stored CSCR rows / non-zero operands at the high end).
+
+## Not proved (observed by the correspondence streams only)
+
+* Floating point: rounding lemmas exist for the row loops (CSR, CSCR, dense, banded, BCSR) and the final
+  `beta·r + alpha·s` step; none for the transposed scatter loops (`ba·r`, scatter, `a·r`), none for a whole kernel or a
+  meta-matrix; the γ-bound of the `f64-nan-prefill` and `f32-nan-prefill` oracle (`γ_{n+8}`) is an a-priori allowance, not derived.
+* Transposed products of trees with a banded leaf (the format does not offer them; the model returns ABORT).
+* `fits (unflatten v)` (the Tuple/PowerVector shape test) is evaluated by the driver on every case, not proved from a
+  well-formedness predicate; the DenseVector (flat) overloads of `TupleDiagMatrix` cannot be instantiated (finding F6) and
+  the flat overloads with an empty block abort (open finding F8) — both outside the theorems' hypotheses.
+* The immutability clause for the real containers is the harness' `U1` flag; in the functional model it holds by
+  construction (`apply_writes_every_entry`, `apply_overwrites_r`, `axpy_ignores_old_r` cover the result vector).
+* 32-bit faithfulness is stated for the stored index arrays and the one 32-bit expression of the banded kernel
+  (`index32_*`); the claim that every other intermediate is 64-bit is by inspection of the C++, not a theorem.
 -/
 open Finset FeatModel.LA
 
@@ -859,6 +873,23 @@ theorem C01.meta_flat_eq_structured (M : MetaMat Rat) (tr : Bool) (ax : Option R
     ∀ r', M.goSQ tr ax x y r ali = some r' → MetaVec.sameShape r r' = true :=
   MetaMat.goS_equiv M tr ax x y r ali hx hy hr
 
+/-- **What the driver prints for the Tuple/PowerVector members is tied to `goQ` by theorem**: the driver unflattens the
+    flat operands of the case line (`MetaMat.unflatten`, the model of `create_vector_l/r` + fill), evaluates the decidable
+    shape test `fits` on the three trees (it is `true` on every generated case, else the driver prints ABORT), runs the tree
+    model `goSQ` and flattens the result. `flatten ∘ unflatten = id` and `meta_flat_eq_structured` give: that output is
+    exactly `goQ` on the flat operands, to which `metamat_apply_eq` / `metamat_tiny_alpha` apply. -/
+theorem C01.meta_structured_tied (M : MetaMat Rat) (tr : Bool) (ax : Option Rat) (x y r : Array Rat) (ali : Bool)
+    (hx : x.size = if tr then M.rows else M.cols) (hy : y.size = if tr then M.cols else M.rows)
+    (hr : r.size = if tr then M.cols else M.rows)
+    (hfx : M.fits tr (M.unflatten tr x) = true) (hfy : M.fits (!tr) (M.unflatten (!tr) y) = true)
+    (hfr : M.fits (!tr) (M.unflatten (!tr) r) = true) :
+    (M.goSQ tr ax (M.unflatten tr x) (M.unflatten (!tr) y) (M.unflatten (!tr) r) ali).map MetaVec.flatten
+      = M.goQ tr ax x y r ali := by
+  have h := (MetaMat.goS_equiv M tr ax _ _ _ ali hfx hfy hfr).1
+  rw [h, MetaMat.flatten_unflatten M tr x (by simpa using hx),
+    MetaMat.flatten_unflatten M (!tr) y (by cases tr <;> simpa using hy),
+    MetaMat.flatten_unflatten M (!tr) r (by cases tr <;> simpa using hr)]
+
 /-- Meta-matrices, the `|alpha| < eps` branch (this includes `alpha = 0`): every leaf takes its early-out, so every
     `apply(r, x, y, alpha)` / `apply_transposed(r, x, y, alpha)` of every nesting returns `y` itself; as for the leaves
     (`csr_applyAxpyQ_tiny`) this differs from the exact `y + alpha·M x` by at most `eps·(|M||x|)_i`. -/
@@ -973,6 +1004,23 @@ theorem C01.fl_rowloop_gamma (M : FlModel) (a b : Nat → FlNum M) (s e : Nat)
       ≤ gammaFl M.u (e - s + 1) * ∑ k ∈ Finset.Ico s e, |(a k).val| * |(b k).val| :=
   fl_foldRange_error M a b s e hn
 
+/-- … and without the first-addition slack: for an arithmetic that adds onto 0 exactly (`fl(0 + b) = b`, as IEEE does) the
+    same loop over `n = e − s ≥ 1` terms meets the textbook bound **`γ_n`** -/
+theorem C01.fl_rowloop_gamma_exact0 (M : FlModel) (h0 : ∀ b, M.add 0 b = b) (a b : Nat → FlNum M) (s e : Nat)
+    (hse : s < e) (hn : ((e - s : Nat) : Rat) * M.u < 1) :
+    |(foldRange s e (fun sum k => sum + a k * b k) 0).val - ∑ k ∈ Finset.Ico s e, (a k).val * (b k).val|
+      ≤ gammaFl M.u (e - s) * ∑ k ∈ Finset.Ico s e, |(a k).val| * |(b k).val| :=
+  fl_foldRange_error_exact0 M h0 a b s e hse hn
+
+/-- the step that follows every row loop, `r_i = fl(fl(beta·r_i) + fl(alpha·ŝ))` (dense / banded order; the CSR-type kernels
+    compute `fl(fl(ŝ·a) + fl(b·r_i))`, the same three roundings): with the row-loop error `|ŝ − s| ≤ E` from the theorems
+    below, `|r̂_i − (beta·r_i + alpha·s)| ≤ (2u+u²)(|beta·r_i| + |alpha·s|) + (1+u)²·|alpha|·E` — again proportional to
+    `|alpha|·(|A||x|)_i + |beta·y_i|`. -/
+theorem C01.fl_final_step (M : FlModel) (beta ri alpha sh s E : Rat) (hE : |sh - s| ≤ E) :
+    |M.add (M.mul beta ri) (M.mul alpha sh) - (beta * ri + alpha * s)|
+      ≤ (2 * M.u + M.u * M.u) * (|beta * ri| + |alpha * s|) + (1 + M.u) * (1 + M.u) * (|alpha| * E) :=
+  FeatModel.LA.fl_final_step M beta ri alpha sh s E hE
+
 /-- … instantiated at the CSR row loop (`Csr.rowSum` at the scalar type `FlNum M`) -/
 theorem C01.fl_csr_row_gamma (M : FlModel) (A : Csr (FlNum M)) (x : Array (FlNum M)) (i : Nat)
     (hn : ((A.rowEnd i - A.rowBegin i + 1 : Nat) : Rat) * M.u < 1) :
@@ -1043,9 +1091,143 @@ theorem C01.index32_banded_faithful {α : Type} (A : Banded α) (hA : A.wf = tru
     A.store32 = A ∧ A.firstUpper32 = A.firstUpper :=
   Banded.store32_eq ((Banded.wf_iff A).mp hA) hdim
 
+/-- … CSCR (`row_ptr`, `col_ind` and `row_numbers` in 32 bits) and BCSR (`row_ptr`, `col_ind` count blocks; the value
+    positions `i·bh·bw + …` are 64-bit pointer arithmetic) -/
+theorem C01.index32_cscr_bcsr_faithful {α : Type} :
+    (∀ A : Cscr α, A.wf = true → A.val.size < 2 ^ 32 → A.cols ≤ 2 ^ 32 → A.rows ≤ 2 ^ 32 → A.store32 = A) ∧
+    (∀ A : Bcsr α, A.wf = true → A.colInd.size < 2 ^ 32 → A.cols ≤ 2 ^ 32 → A.store32 = A) :=
+  ⟨fun A hA h1 h2 h3 => Cscr.store32_eq ((Cscr.wf_iff A).mp hA) h1 h2 h3,
+   fun A hA h1 h2 => Bcsr.store32_eq ((Bcsr.wf_iff A).mp hA) h1 h2⟩
+
 /-- the size hypothesis of `index32_banded_faithful` is sharp: a band with offset `2^32 − 1` (possible as soon as
     `rows + columns = 2^32 + 1`) makes the 32-bit sum `offsets[k] + 1` wrap to 0 -/
 theorem C01.index32_banded_wraps : trunc32 ((2 ^ 32 - 1) + 1) = 0 := by decide
+
+/-- CSR matrix × `DenseVectorBlocked` at the container level (ℚ): `apply(r, x)` and `apply(r, x, y, alpha)` (`|alpha| ≥ eps`)
+    write every pod entry `idx = i·bs + k`, also in the rows without stored entries and in the `used_elements() == 0`
+    early-out: `r_idx = y_idx + alpha·Σ_j A_ij·x[j·bs+k]`. -/
+theorem C01.csrsb_applyQ_spec (bs : Nat) (hbs : 0 < bs) (A : Csr Rat) (hA : A.wf = true) (x y r : Array Rat)
+    (ax : Option Rat) (hax : ∀ al, ax = some al → epsQ ≤ |al|) (ali : Bool)
+    (hr : r.size = A.rows * bs) (hy : ax.isSome = true → y.size = A.rows * bs) (hx : x.size = A.cols * bs)
+    (hry : ali = true → r = y) :
+    ∃ r', (match ax with | none => A.applySBQ bs x r | some al => A.applyAxpySBQ bs x y r al ali) = some r' ∧
+      r'.size = A.rows * bs ∧
+      ∀ idx, idx < A.rows * bs → r'.getD idx 0 =
+        (match ax with | none => 0 | some _ => y.getD idx 0) + ax.getD 1 *
+          ∑ j ∈ range A.cols, A.entry (idx / bs) j * x.getD (j * bs + idx % bs) 0 := by
+  have h := (Csr.wf_iff A).mp hA
+  have ht0 := C01.tinyRat_zero_one.1
+  have ht1 := C01.tinyRat_zero_one.2
+  have hdm : ∀ idx, idx < A.rows * bs → idx / bs < A.rows ∧ idx % bs < bs ∧ idx / bs * bs + idx % bs = idx := by
+    intro idx hidx
+    refine ⟨(Nat.div_lt_iff_lt_mul hbs).mpr hidx, Nat.mod_lt _ hbs, ?_⟩
+    rw [Nat.mul_comm]; exact Nat.div_add_mod idx bs
+  cases ax with
+  | none =>
+    by_cases h0 : A.usedElements = 0
+    · refine ⟨Array.replicate r.size 0, by simp [Csr.applySBQ, Csr.applySB, hr, hx, h0], by simp [hr], ?_⟩
+      intro idx hidx
+      obtain ⟨d1, _, _⟩ := hdm idx hidx
+      rw [getD_replicate _ _ (by rw [hr]; exact hidx)]
+      simp [Csr.entry_eq_zero_of_empty h h0 d1]
+    · refine ⟨A.kernelSB (tinyRat epsQ) bs 1 0 x r r true, by simp [Csr.applySBQ, Csr.applySB, hr, hx, h0],
+        by simp [Csr.kernelSB], ?_⟩
+      intro idx hidx
+      obtain ⟨d1, d2, d3⟩ := hdm idx hidx
+      have := C01.csrsb_kernel_eq (tinyRat epsQ) bs A hA 1 0 x r r true (idx / bs) (idx % bs) d1 d2
+      rw [d3] at this
+      rw [this, ht0]; simp
+  | some al =>
+    have hal := hax al rfl
+    have ht : tinyRat epsQ al = false := by
+      rw [Bool.eq_false_iff]; intro h; exact absurd ((C01.tinyRat_iff _ _).mp h) (not_lt.mpr hal)
+    have hyy : (if ali then r else y) = y := by
+      cases ali
+      · rfl
+      · exact hry rfl
+    have hy' := hy rfl
+    by_cases h0 : A.usedElements = 0
+    · refine ⟨if ali then r else y, by simp [Csr.applyAxpySBQ, Csr.applyAxpySB, hr, hx, hy', h0], by rw [hyy]; exact hy', ?_⟩
+      intro idx hidx
+      obtain ⟨d1, _, _⟩ := hdm idx hidx
+      rw [hyy]
+      simp [Csr.entry_eq_zero_of_empty h h0 d1]
+    · refine ⟨A.kernelSB (tinyRat epsQ) bs al 1 x y r ali,
+        by simp [Csr.applyAxpySBQ, Csr.applyAxpySB, hr, hx, hy', h0, ht], by simp [Csr.kernelSB], ?_⟩
+      intro idx hidx
+      obtain ⟨d1, d2, d3⟩ := hdm idx hidx
+      have := C01.csrsb_kernel_eq (tinyRat epsQ) bs A hA al 1 x y r ali (idx / bs) (idx % bs) d1 d2
+      rw [d3] at this
+      rw [this, hyy, ht1]; simp; ring
+
+/-- **The plain product writes EVERY entry of the output array**, whatever the re-used `r` held before (the driver and the
+    harness pass a vector pre-filled with 777): for every leaf format and every vector kind, `apply(r, x)` (and
+    `apply_transposed(r, x)` where offered) returns an array of exactly the result size whose entry `i` is `some ((A x)_i)` —
+    in particular `some 0` for rows/blocks without stored entries (CSR empty rows, CSR × blocked vectors, CSCR rows that are
+    not stored, BCSR block rows without blocks, banded rows without a band). The right-hand sides do not mention `r`:
+    nothing of the old contents survives. (The axpy forms: `csr/cscr/bcsr/banded/dense_applyAxpyQ_spec`,
+    `csrsb_applyQ_spec`, `axpy_ignores_old_r`.) -/
+theorem C01.apply_writes_every_entry (x r : Array Rat) (tr : Bool) :
+    (∀ A : Csr Rat, A.wf = true → r.size = (if tr then A.cols else A.rows) → x.size = (if tr then A.rows else A.cols) →
+      ∃ r', A.applyQ x r tr = some r' ∧ r'.size = (if tr then A.cols else A.rows) ∧
+        ∀ i, i < (if tr then A.cols else A.rows) → r'[i]? = some
+          (if tr then ∑ k ∈ range A.rows, A.entry k i * x.getD k 0 else ∑ k ∈ range A.cols, A.entry i k * x.getD k 0)) ∧
+    (∀ (bs : Nat) (A : Csr Rat), 0 < bs → A.wf = true → r.size = A.rows * bs → x.size = A.cols * bs →
+      ∃ r', A.applySBQ bs x r = some r' ∧ r'.size = A.rows * bs ∧
+        ∀ idx, idx < A.rows * bs → r'[idx]? = some (∑ j ∈ range A.cols, A.entry (idx / bs) j * x.getD (j * bs + idx % bs) 0)) ∧
+    (∀ A : Cscr Rat, A.wf = true → r.size = (if tr then A.cols else A.rows) → x.size = (if tr then A.rows else A.cols) →
+      ∃ r', A.applyQ x r tr = some r' ∧ r'.size = (if tr then A.cols else A.rows) ∧
+        ∀ i, i < (if tr then A.cols else A.rows) → r'[i]? = some
+          (if tr then ∑ k ∈ range A.rows, A.entry k i * x.getD k 0 else ∑ k ∈ range A.cols, A.entry i k * x.getD k 0)) ∧
+    (∀ A : Bcsr Rat, A.wf = true → 0 < A.bh → 0 < A.bw → r.size = (if tr then A.cols * A.bw else A.rows * A.bh) →
+      x.size = (if tr then A.rows * A.bh else A.cols * A.bw) →
+      ∃ r', A.applyQ x r tr = some r' ∧ r'.size = (if tr then A.cols * A.bw else A.rows * A.bh) ∧
+        ∀ i, i < (if tr then A.cols * A.bw else A.rows * A.bh) → r'[i]? = some
+          (if tr then ∑ k ∈ range (A.rows * A.bh), A.entry k i * x.getD k 0
+           else ∑ k ∈ range (A.cols * A.bw), A.entry i k * x.getD k 0)) ∧
+    (∀ A : Banded Rat, A.wf = true → 0 < A.rows → r.size = A.rows → x.size = A.cols →
+      ∃ r', A.applyQ x r false = some r' ∧ r'.size = A.rows ∧
+        ∀ i, i < A.rows → r'[i]? = some (∑ k ∈ range A.cols, A.entry i k * x.getD k 0)) ∧
+    (∀ A : Dense Rat, 0 < A.rows → 0 < A.cols → r.size = (if tr then A.cols else A.rows) →
+      x.size = (if tr then A.rows else A.cols) →
+      ∃ r', A.applyQ x r tr = some r' ∧ r'.size = (if tr then A.cols else A.rows) ∧
+        ∀ i, i < (if tr then A.cols else A.rows) → r'[i]? = some
+          (if tr then ∑ k ∈ range A.rows, A.entry k i * x.getD k 0 else ∑ k ∈ range A.cols, A.entry i k * x.getD k 0)) := by
+  have key : ∀ (r' : Array Rat) (n : Nat) (v : Nat → Rat), r'.size = n → (∀ i, i < n → r'.getD i 0 = v i) →
+      ∀ i, i < n → r'[i]? = some (v i) := by
+    intro r' n v hs hv i hi
+    have hi' : i < r'.size := by rw [hs]; exact hi
+    have := hv i hi
+    rw [Array.getD_eq_getD_getElem?, Array.getElem?_eq_getElem hi'] at this
+    rw [Array.getElem?_eq_getElem hi']
+    simpa using this
+  refine ⟨?_, ?_, ?_, ?_, ?_, ?_⟩
+  · intro A hA hr hx
+    obtain ⟨r', e, v⟩ := C01.csr_applyQ_spec A hA x r tr hr hx
+    have hs := Csr.apply_size _ A x r r' tr e
+    exact ⟨r', e, hs, key r' _ _ hs v⟩
+  · intro bs A hbs hA hr hx
+    obtain ⟨r', e, hs, v⟩ := C01.csrsb_applyQ_spec bs hbs A hA x r r none (fun al h => by simp at h) true hr
+      (fun h => by simp at h) hx (fun _ => rfl)
+    refine ⟨r', e, hs, key r' _ _ hs (fun i hi => ?_)⟩
+    have := v i hi
+    simpa using this
+  · intro A hA hr hx
+    obtain ⟨r', e, v⟩ := C01.cscr_applyQ_spec A hA x r tr hr hx
+    have hs := Cscr.apply_size _ A x r r' tr e
+    exact ⟨r', e, hs, key r' _ _ hs v⟩
+  · intro A hA hbh hbw hr hx
+    obtain ⟨r', e, v⟩ := C01.bcsr_applyQ_spec A hA hbh hbw x r tr hr hx
+    have hs := Bcsr.apply_size _ A x r r' tr e
+    exact ⟨r', e, hs, key r' _ _ hs v⟩
+  · intro A hA hne hr hx
+    obtain ⟨r', e, v⟩ := C01.banded_applyQ_spec A hA x r hr hx hne
+    have hs := Banded.apply_size _ A x r r' e
+    exact ⟨r', e, hs, key r' _ _ hs v⟩
+  · intro A h1 h2 hr hx
+    obtain ⟨r', e, v⟩ := C01.dense_applyQ_spec A x r tr ⟨h1, h2⟩ hr hx
+    have hs := Dense.apply_size _ A x r r' tr e
+    exact ⟨r', e, hs, key r' _ _ hs v⟩
 
 /-- **`r` is overwritten, never accumulated** (plain product, every leaf format): `apply(r, x)` / `apply_transposed(r, x)`
     return the same vector whatever `r` held before (stale data, the harness pre-fills 777) — the kernels run with
